@@ -24,7 +24,7 @@ ALLOWED_AXIOMS = {
 TRUSTED_BASE = [
     "Coq 8.16.1 kernel and vm_compute (no native_compute)",
     "translators tools/gen/*.py (Rust tables -> coq/gen/*.v)",
-    "extraction: Require Extraction + ExtrOcamlBasic only (bool, option, unit, list, prod, sumbool, sumor, andb, orb mapped to OCaml); OCaml 4.13.1; ocaml/driver.ml",
+    "extraction: Require Extraction + ExtrOcamlBasic only (bool, option, unit, list, prod, sumbool, sumor, andb, orb mapped to OCaml); OCaml 4.13.1; ocaml/driver.ml, ocaml/eng_*.ml - for engines ofull, link, layer, treader, twriter, db cross-checked on a sample of every run's scripts against Eval vm_compute inside Coq (coverage.coq_crosscheck); trusted for that check: the term renderer tools/coqeval.py, coq/Codes/*.v, vm_compute and Coq's printer",
     "correspondence harness /verif/harness (Rust, compiled into dnp3's test build via hook H1/H2), sfio-tokio-mock-io, tokio paused clock",
     "script generators and textual diff in tools/*.py",
     "rustc/cargo and the crate's dependencies",
